@@ -10,8 +10,9 @@ import (
 )
 
 // Facts asked from the compiled code: the default size limit, and what the REAL sequencer releases
-// on the three witness histories of Spec.C20 (ids per call), so that the kernel-checked
-// counter-witnesses are statements about today's code and not only about the model.
+// on the three witness histories of Spec.C20 (ids per call) - the inputs that refuted the
+// release-sequence clauses before the repair of GetNextBatch -, so that the kernel-checked
+// "now behaves" theorems are statements about today's code and not only about the model.
 type wcall struct {
 	put  map[uint64][][]byte // DA growth before the call
 	head uint64
